@@ -78,15 +78,18 @@ pub fn check(case: &LedgerCase, obs: &mut Obs) -> Verdict {
             if tool.err.is_some() { continue; }
             let Some(t) = r.res.security_tables.get(sec) else { return Verdict::Fail(format!("no table for {sec}\n{}", files[0].1)); };
             if t.rows.len() != tool.deltas.len() { return Verdict::Fail(format!("table {sec} has {} rows, the ledger {} entries\n{}", t.rows.len(), tool.deltas.len(), files[0].1)); }
+            // (columns are found by their heading; a table laid out differently is simply not compared)
+            let col = |name: &str| t.header.iter().position(|h| h.trim() == name);
+            let (Some(c_acb), Some(c_gain), Some(c_new)) = (col("ACB"), col("Cap. Gain"), col("New ACB")) else { obs.class("rendered-table-has-other-headings"); continue; };
             for (i, (row, d)) in t.rows.iter().zip(tool.deltas.iter()).enumerate() {
                 let first = |c: usize| row.get(c).map(|x| x.lines().next().unwrap_or("").to_string()).unwrap_or_default();
                 let bad = |what: &str, cell: String, want: &Rat| Verdict::Fail(format!("table {sec}, row #{i}: the {what} cell shows {cell:?}, the ledger says {want}\n{}", files[0].1));
-                if let Some(acb) = d.post_status.total_acb { let want = Rat::from_decimal(&*acb); if let Some(v) = crate::snapshot::money(&first(12)) { if !v.close(&want, &tol) { return bad("New ACB", first(12), &want); } } }
-                if let Some(g) = d.capital_gain { let want = Rat::from_decimal(&g); if let Some((_, v, _)) = crate::snapshot::money_loose(&first(9)) { if !v.close(&want, &tol) { return bad("Cap. Gain", first(9), &want); } } }
+                if let Some(acb) = d.post_status.total_acb { let want = Rat::from_decimal(&*acb); if let Some(v) = crate::snapshot::money(&first(c_new)) { if !v.close(&want, &tol) { return bad("New ACB", first(c_new), &want); } } }
+                if let Some(g) = d.capital_gain { let want = Rat::from_decimal(&g); if let Some((_, v, _)) = crate::snapshot::money_loose(&first(c_gain)) { if !v.close(&want, &tol) { return bad("Cap. Gain", first(c_gain), &want); } } }
                 if let acb::portfolio::TxActionSpecifics::Sell(sp) = &d.tx.action_specifics {
                     if let Some(pre) = d.pre_status.total_acb { let bal = Rat::from_decimal(&*d.pre_status.share_balance); if bal.is_pos() {
                         let want = Rat::from_decimal(&*pre).mul(&Rat::from_decimal(&*sp.shares)).div(&bal);
-                        if let Some(v) = crate::snapshot::money(&first(7)) { if !v.close(&want, &tol) { return bad("ACB (cost base removed by the sale)", first(7), &want); } }
+                        if let Some(v) = crate::snapshot::money(&first(c_acb)) { if !v.close(&want, &tol) { return bad("ACB (cost base removed by the sale)", first(c_acb), &want); } }
                     } }
                 }
             }
